@@ -39,14 +39,14 @@ class C19(PropBase):
                    "files are fixed during a history; only options change"]
 
     def count(self, tier):
-        return 160 if tier == "quick" else 6000
+        return 190 if tier == "quick" else 6000
 
     def generate(self, seed, tier, idx):
         rng = Rng(seed)
         # focused scenario: one option is walked through all its values (every pair of values meets on one build dir), over a
         # project made of material sensitive to that option; otherwise a random walk over all options
         keys = sorted(gen.OPTION_POOL)
-        focus = rng.choice(keys) if rng.chance(0.6) else None
+        focus = rng.choice(keys) if rng.chance(0.7) else None
         if focus:
             proj = gen.gen_project(rng, n_units=rng.randint(1, 3), inline=0.3 if focus == "--inline-suppr" else 0.1, atoms=SENSITIVE[focus] * 3 + OPT_ATOMS[:8],
                                    cfg_blocks=0.9 if focus in ("-D", "-U", "--max-configs") else 0.2, max_atoms=5, wp=rng.chance(0.2))
@@ -54,6 +54,15 @@ class C19(PropBase):
             proj = gen.gen_project(rng, n_units=rng.randint(1, 4), inline=0.2, atoms=OPT_ATOMS, cfg_blocks=0.6, max_atoms=6,
                                    wp=rng.chance(0.4))
         tree = proj["tree"]
+        if focus:
+            # every piece of material that tells two values of the walked option apart is present at least once
+            ctr = gen.Counter(); ctr.n = 800
+            for name in SENSITIVE[focus]:
+                a = gen.ATOM_BY_NAME[name]
+                us = [u for u in proj["units"] if gen.atom_ok(a, proj["langs"][u])]
+                if us:
+                    u = rng.choice(us)
+                    tree[u] = tree[u] + [a[3].format(n=ctr.next())]
         # -I sensitive material: a header only found with -Iinc
         if rng.chance(0.5) or focus == "-I":
             tree["inc/onlyinc.h"] = ["static inline int oi(int y){return y/0;}", "#define ONLYINC 1"]
@@ -68,7 +77,17 @@ class C19(PropBase):
             base["--enable"] = "--enable=style,warning,performance,portability"
         hist = [{"opts": base}, {"run": gen_run(rng)}]
         cur = dict(base)
-        walk = rng.shuffle(list(gen.OPTION_POOL[focus]))[:6] if focus else []
+        walk = []
+        if focus:
+            # a walk through the values in which consecutive runs meet as many different pairs of values as a short history
+            # allows: a shuffled pass over all values, then a second partial pass in another order
+            vals = list(gen.OPTION_POOL[focus])
+            walk = rng.shuffle(list(vals))[:7]
+            for v in rng.shuffle(list(vals)):
+                if len(walk) >= 9:
+                    break
+                if v != walk[-1]:
+                    walk.append(v)
         for step in range(len(walk) if focus else rng.randint(1, 4)):
             new = dict(cur)
             for k in ([focus] if focus else rng.sample(keys, rng.choice([1, 1, 1, 2, 3]))):
